@@ -67,6 +67,9 @@ Model/Rdb.vos Model/Rdb.vok Model/Rdb.required_vos: Model/Rdb.v Base/Bytes.vos B
 Model/RespCodec.vo Model/RespCodec.glob Model/RespCodec.v.beautified Model/RespCodec.required_vo: Model/RespCodec.v Base/Bytes.vo Base/Dec.vo Gen/Resp.vo
 Model/RespCodec.vio: Model/RespCodec.v Base/Bytes.vio Base/Dec.vio Gen/Resp.vio
 Model/RespCodec.vos Model/RespCodec.vok Model/RespCodec.required_vos: Model/RespCodec.v Base/Bytes.vos Base/Dec.vos Gen/Resp.vos
+Model/Restore.vo Model/Restore.glob Model/Restore.v.beautified Model/Restore.required_vo: Model/Restore.v Base/Bytes.vo Base/Endian.vo Base/Dec.vo Model/RespCodec.vo Model/Digest.vo Model/Rdb.vo Model/Cupcake.vo
+Model/Restore.vio: Model/Restore.v Base/Bytes.vio Base/Endian.vio Base/Dec.vio Model/RespCodec.vio Model/Digest.vio Model/Rdb.vio Model/Cupcake.vio
+Model/Restore.vos Model/Restore.vok Model/Restore.required_vos: Model/Restore.v Base/Bytes.vos Base/Endian.vos Base/Dec.vos Model/RespCodec.vos Model/Digest.vos Model/Rdb.vos Model/Cupcake.vos
 Model/Slot.vo Model/Slot.glob Model/Slot.v.beautified Model/Slot.required_vo: Model/Slot.v Base/Bytes.vo Base/Dec.vo Spec/Crc16.vo Spec/Slot.vo Gen/Crc16.vo Model/SlotKeys.vo
 Model/Slot.vio: Model/Slot.v Base/Bytes.vio Base/Dec.vio Spec/Crc16.vio Spec/Slot.vio Gen/Crc16.vio Model/SlotKeys.vio
 Model/Slot.vos Model/Slot.vok Model/Slot.required_vos: Model/Slot.v Base/Bytes.vos Base/Dec.vos Spec/Crc16.vos Spec/Slot.vos Gen/Crc16.vos Model/SlotKeys.vos
@@ -109,6 +112,9 @@ Proofs/RdbProofs.vos Proofs/RdbProofs.vok Proofs/RdbProofs.required_vos: Proofs/
 Proofs/RespProofs.vo Proofs/RespProofs.glob Proofs/RespProofs.v.beautified Proofs/RespProofs.required_vo: Proofs/RespProofs.v Base/Bytes.vo Base/Dec.vo Gen/Resp.vo Model/RespCodec.vo
 Proofs/RespProofs.vio: Proofs/RespProofs.v Base/Bytes.vio Base/Dec.vio Gen/Resp.vio Model/RespCodec.vio
 Proofs/RespProofs.vos Proofs/RespProofs.vok Proofs/RespProofs.required_vos: Proofs/RespProofs.v Base/Bytes.vos Base/Dec.vos Gen/Resp.vos Model/RespCodec.vos
+Proofs/RestoreProofs.vo Proofs/RestoreProofs.glob Proofs/RestoreProofs.v.beautified Proofs/RestoreProofs.required_vo: Proofs/RestoreProofs.v Base/Bytes.vo Base/Endian.vo Base/Dec.vo Model/RespCodec.vo Model/Digest.vo Model/Rdb.vo Model/Cupcake.vo Model/Restore.vo
+Proofs/RestoreProofs.vio: Proofs/RestoreProofs.v Base/Bytes.vio Base/Endian.vio Base/Dec.vio Model/RespCodec.vio Model/Digest.vio Model/Rdb.vio Model/Cupcake.vio Model/Restore.vio
+Proofs/RestoreProofs.vos Proofs/RestoreProofs.vok Proofs/RestoreProofs.required_vos: Proofs/RestoreProofs.v Base/Bytes.vos Base/Endian.vos Base/Dec.vos Model/RespCodec.vos Model/Digest.vos Model/Rdb.vos Model/Cupcake.vos Model/Restore.vos
 Proofs/SlotProofs.vo Proofs/SlotProofs.glob Proofs/SlotProofs.v.beautified Proofs/SlotProofs.required_vo: Proofs/SlotProofs.v Base/Bytes.vo Base/Dec.vo Spec/Crc16.vo Spec/Slot.vo Gen/Crc16.vo Model/Slot.vo Proofs/SlotWitness.vo Proofs/SlotWitnessCheck.vo
 Proofs/SlotProofs.vio: Proofs/SlotProofs.v Base/Bytes.vio Base/Dec.vio Spec/Crc16.vio Spec/Slot.vio Gen/Crc16.vio Model/Slot.vio Proofs/SlotWitness.vio Proofs/SlotWitnessCheck.vio
 Proofs/SlotProofs.vos Proofs/SlotProofs.vok Proofs/SlotProofs.required_vos: Proofs/SlotProofs.v Base/Bytes.vos Base/Dec.vos Spec/Crc16.vos Spec/Slot.vos Gen/Crc16.vos Model/Slot.vos Proofs/SlotWitness.vos Proofs/SlotWitnessCheck.vos
@@ -124,6 +130,9 @@ Proofs/SupervisorProofs.vos Proofs/SupervisorProofs.vok Proofs/SupervisorProofs.
 Props/C01.vo Props/C01.glob Props/C01.v.beautified Props/C01.required_vo: Props/C01.v Base/Bytes.vo Base/Endian.vo Spec/Crc64.vo Gen/Crc64.vo Gen/Rdb.vo Model/Digest.vo Model/Rdb.vo Spec/RdbFormat.vo Spec/RdbRecords.vo Proofs/RdbProofs.vo Proofs/DigestProofs.vo
 Props/C01.vio: Props/C01.v Base/Bytes.vio Base/Endian.vio Spec/Crc64.vio Gen/Crc64.vio Gen/Rdb.vio Model/Digest.vio Model/Rdb.vio Spec/RdbFormat.vio Spec/RdbRecords.vio Proofs/RdbProofs.vio Proofs/DigestProofs.vio
 Props/C01.vos Props/C01.vok Props/C01.required_vos: Props/C01.v Base/Bytes.vos Base/Endian.vos Spec/Crc64.vos Gen/Crc64.vos Gen/Rdb.vos Model/Digest.vos Model/Rdb.vos Spec/RdbFormat.vos Spec/RdbRecords.vos Proofs/RdbProofs.vos Proofs/DigestProofs.vos
+Props/C02.vo Props/C02.glob Props/C02.v.beautified Props/C02.required_vo: Props/C02.v Base/Bytes.vo Base/Endian.vo Model/Rdb.vo Model/Cupcake.vo Model/Restore.vo Proofs/RestoreProofs.vo
+Props/C02.vio: Props/C02.v Base/Bytes.vio Base/Endian.vio Model/Rdb.vio Model/Cupcake.vio Model/Restore.vio Proofs/RestoreProofs.vio
+Props/C02.vos Props/C02.vok Props/C02.required_vos: Props/C02.v Base/Bytes.vos Base/Endian.vos Model/Rdb.vos Model/Cupcake.vos Model/Restore.vos Proofs/RestoreProofs.vos
 Props/C03.vo Props/C03.glob Props/C03.v.beautified Props/C03.required_vo: Props/C03.v Base/Bytes.vo Base/Dec.vo Model/RespCodec.vo Model/Filter.vo Model/Incr.vo Proofs/IncrProofs.vo
 Props/C03.vio: Props/C03.v Base/Bytes.vio Base/Dec.vio Model/RespCodec.vio Model/Filter.vio Model/Incr.vio Proofs/IncrProofs.vio
 Props/C03.vos Props/C03.vok Props/C03.required_vos: Props/C03.v Base/Bytes.vos Base/Dec.vos Model/RespCodec.vos Model/Filter.vos Model/Incr.vos Proofs/IncrProofs.vos
